@@ -37,6 +37,8 @@ pub struct Case {
     pub subject_cfg: Config,
     /// plugin names in configuration order
     pub plugins: Vec<&'static str>,
+    /// what the scalars plugin is told about a scalar of a JavaScript schema
+    pub scalar_ext: Option<(String, serde_yaml::Value)>,
     pub tags: Vec<String>,
 }
 
@@ -67,7 +69,21 @@ pub fn gen_case(c: &mut Chooser) -> Case {
         }
     }
     // the base schema's `scalar Version`
-    match c.choose("scalar.Version", 5) {
+    let mut scalar_ext: Option<(String, serde_yaml::Value)> = None;
+    match c.choose("scalar.Version", 6) {
+        5 => {
+            // through the graphql-scalars plugin: the scalar's JavaScript definition carries `codegenScalarType`
+            let (y, t): (&str, [&str; 4]) = match c.choose("scalar.plugin-form", 4) {
+                0 => ("\"string\"", ["string", "string", "string", "string"]),
+                1 => ("{send: \"string | number\", receive: \"bigint\"}", ["string | number", "bigint", "bigint", "string | number"]),
+                // graphql-codegen's spelling, read like send / receive
+                2 => ("{input: \"PI\", output: \"PO\"}", ["PI", "PO", "PO", "PI"]),
+                _ => ("{resolverInput: \"RI\", resolverOutput: \"RO\", operationInput: \"OI\", operationOutput: \"OO\"}", ["OI", "OO", "RI", "RO"]),
+            };
+            scalar_ext = Some(("Version".to_string(), serde_yaml::from_str(y).unwrap()));
+            scalars.insert("Version".into(), [t[0].to_string(), t[1].to_string(), t[2].to_string(), t[3].to_string()]);
+            tags.push("scalar-by-plugin".into());
+        }
         0 => {
             cfg.generate.r#type.scalar_types.insert("Version".into(), ScalarTypeConfig::Single("string".into()));
             scalars.insert("Version".into(), four("string"));
@@ -228,13 +244,15 @@ pub fn gen_case(c: &mut Chooser) -> Case {
                 vec!["nitrogql:graphql-scalars-plugin", "nitrogql:model-plugin"]
             }
         }
-    } else if c.flag("plugin.scalars-only") {
-        vec!["nitrogql:graphql-scalars-plugin"]
     } else {
         vec![]
     };
+    let mut plugins = plugins;
+    if scalar_ext.is_some() && !plugins.contains(&"nitrogql:graphql-scalars-plugin") {
+        plugins.insert(0, "nitrogql:graphql-scalars-plugin");
+    }
     let subject_cfg = pipeline::via_config_text(&cfg);
-    Case { model, files, scalars, cfg, subject_cfg, plugins, tags }
+    Case { model, files, scalars, cfg, subject_cfg, plugins, scalar_ext, tags }
 }
 
 fn add_field(files: &mut [TsDoc], ty: &str, name: &str, t: Ty) {
@@ -288,9 +306,20 @@ fn check_case(rep: &Reporter, case: &Case, texts: &[String], c: &Chooser, cnt: &
     let case_json = |extra: J| json!({"files": texts, "tags": case.tags, "picks": c.picks(), "detail": extra});
     let generated = catch(|| {
         let parsed = pipeline::parse_schema_files(texts).map_err(|f| format!("{:?}", f.diags))?;
-        let doc = pipeline::resolve_and_check_schema(parsed).map_err(|f| format!("rejected: {:?}", f.diags.iter().map(|d| d.kind.clone()).collect::<Vec<_>>()))?;
+        // the plugin objects as the CLI holds them: the scalars plugin has been told the schema's extensions
+        let plugins: Vec<nitrogql_plugin::Plugin<'static>> = case
+            .plugins
+            .iter()
+            .map(|n| match (*n, &case.scalar_ext) {
+                ("nitrogql:graphql-scalars-plugin", Some(e)) => pipeline::scalars_plugin_with(std::slice::from_ref(e)),
+                _ => pipeline::make_plugins(&[n]).pop().unwrap(),
+            })
+            .collect();
+        // only the scalars plugin's addition: the model plugin's `directive @model` is already written into the files
+        let additions = pipeline::plugin_additions(&plugins).map_err(|e| format!("resolvers_dts: {e}"))?.into_iter().zip(case.plugins.iter()).filter(|(_, n)| **n == "nitrogql:graphql-scalars-plugin").map(|(a, _)| a).collect::<Vec<_>>();
+        let doc = pipeline::resolve_and_check_schema_with(parsed, additions).map_err(|f| format!("rejected: {:?}", f.diags.iter().map(|d| d.kind.clone()).collect::<Vec<_>>()))?;
         let s = pipeline::schema_dts(&doc, &case.subject_cfg).map_err(|e| format!("schema_dts: {e}"))?;
-        let r = pipeline::resolvers_dts_plugins(&doc, &case.subject_cfg, "./schema.js", &case.plugins).map_err(|e| format!("resolvers_dts: {e}"))?;
+        let r = pipeline::resolvers_dts_with_plugins(&doc, &case.subject_cfg, "./schema.js", &plugins).map_err(|e| format!("resolvers_dts: {e}"))?;
         Ok::<_, String>((s.buffer, r.buffer))
     });
     let (schema_text, resolvers_text) = match generated {
@@ -494,7 +523,7 @@ pub fn run(args: &RunArgs) -> i32 {
     let stats = explore(&ExploreCfg { max_dev: dev, threads: args.threads, budget: Duration::from_secs(budget) }, |c: &mut Chooser| {
         let case = gen_case(c);
         let texts: Vec<String> = case.files.iter().map(ts_text).collect();
-        let key = format!("{}|{:?}|{}|{}|{}|{:?}", texts.join("\u{1}"), case.scalars, case.cfg.generate.r#type.allow_undefined_as_optional_input, case.cfg.generate.emit_schema_runtime, case.model.is_some(), case.plugins);
+        let key = format!("{}|{:?}|{}|{}|{}|{:?}", texts.join("\u{1}"), case.scalars, case.cfg.generate.r#type.allow_undefined_as_optional_input, case.cfg.generate.emit_schema_runtime, case.model.is_some(), (&case.plugins, &case.scalar_ext));
         if !distinct.insert(fnv(key.as_bytes())) {
             return;
         }
